@@ -69,7 +69,10 @@ func unhx(t string) (string, error) {
 var dist = map[string]int{}
 
 // ---------------------------------------------------------------- cases
-const maxSlowRetries = 5000 // with a non-positive base the loop runs `retries` times
+// Before the fix of B1 the loop ran `retries` times on a non-positive base. The
+// harness still never runs such a call with more retries than this, so that a
+// tree without that fix cannot hang it.
+const maxSlowRetries = 5000
 
 func callBackoff(base, max int64, retries int) (out string) {
 	defer func() {
@@ -142,6 +145,8 @@ func callLatency(h, t metadata.MD) (out string) {
 		return "es"
 	case strings.HasPrefix(msg, "failed to parse gfe latency: ") && strings.HasSuffix(msg, "value out of range"):
 		return "er"
+	case strings.HasPrefix(msg, "failed to parse gfe latency: ") && strings.HasSuffix(msg, "ms is out of range"):
+		return "ed" // the millisecond count is an int64 but not a time.Duration (fix of B2)
 	}
 	return "eo"
 }
@@ -646,6 +651,7 @@ var qpsBits = []uint64{
 	4457945039842050049,                      // smallest qps whose interval fits into int64
 	4457945039842050048, 4457945039842050050, // its neighbours
 	math.Float64bits(1), math.Float64bits(1000), math.Float64bits(0.5), math.Float64bits(1e-9),
+	math.Float64bits(1e-9) - 1, math.Float64bits(1e-9) + 1,
 	math.Float64bits(1e-10), math.Float64bits(1.1e-10), math.Float64bits(3), math.Float64bits(7),
 	math.Float64bits(999.9999), math.Float64bits(math.Nextafter(1000, 2000)), math.Float64bits(1e9),
 	math.Float64bits(2e9), math.Float64bits(1e300), math.Float64bits(5e-324), math.Float64bits(1e-310),
